@@ -21,9 +21,9 @@
 (* order and compares what arrives for operation i with block deliver[i].   *)
 EXTENDS Integers, Sequences, FiniteSets, Json, TLC, SequencesExt
 
-CONSTANTS NOps,            \* number of serve operations (2 or 3)
+CONSTANTS NOps,            \* serve operations of the state machine (2 or 3); histories of 2..NOps are emitted
           SharedScratch,   \* FALSE: the specified design
-          AllThirds,       \* FALSE: third block = next kind; TRUE: every kind (thorough)
+          AllThirds,       \* FALSE: third block = next kind, ntc pairs adjacent; TRUE: every kind (thorough)
           NtcFirst3        \* kinds (positions) that lead a three-operation ntc history
 
 Ops == 1..NOps
@@ -67,15 +67,16 @@ OwnContent == \A i \in Ops : wire[i] # None => wire[i] = i
 
 -----------------------------------------------------------------------------
 (* All complete histories, computed independently of the state machine:     *)
-(* every arrangement of the 2*NOps steps in which construct i precedes      *)
-(* encode i.  HistoriesMatch ties the two together.                         *)
-Steps == {[s |-> k, i |-> i] : k \in {"c", "e"}, i \in Ops}
+(* every arrangement of the 2n steps of n operations in which construct i   *)
+(* precedes encode i.  HistoriesMatch ties the two together for n = NOps;   *)
+(* histories of fewer operations are projections of those.                  *)
+Steps(n) == {[s |-> k, i |-> i] : k \in {"c", "e"}, i \in 1..n}
 Pos(f, st) == CHOOSE p \in DOMAIN f : f[p] = st
-Histories ==
-    {f \in [1..(2 * NOps) -> Steps] :
-        /\ \A p, q \in 1..(2 * NOps) : p # q => f[p] # f[q]
-        /\ \A i \in Ops : Pos(f, [s |-> "c", i |-> i]) < Pos(f, [s |-> "e", i |-> i])}
-HistoriesMatch == Done => h \in Histories
+Histories(n) ==
+    {f \in [1..(2 * n) -> Steps(n)] :
+        /\ \A p, q \in 1..(2 * n) : p # q => f[p] # f[q]
+        /\ \A i \in 1..n : Pos(f, [s |-> "c", i |-> i]) < Pos(f, [s |-> "e", i |-> i])}
+HistoriesMatch == Done => h \in Histories(NOps)
 
 -----------------------------------------------------------------------------
 (* Block assignments.  A block is (kind, sib): the repository's fixture     *)
@@ -88,18 +89,23 @@ KindsOf(mode) == IF mode = "ntn" THEN 3..Len(Kinds) ELSE 1..Len(Kinds)
 NextKind(mode, k) == IF k = Len(Kinds) THEN (IF mode = "ntn" THEN 3 ELSE 1) ELSE k + 1
 B(k, sib) == [kind |-> Kinds[k], sib |-> sib]
 
-Pairs(mode) == {p \in KindsOf(mode) \X KindsOf(mode) : p[1] # p[2]}
+\* cross-era pairs: all ordered pairs for ntn; for ntc (the message copies the block) adjacent kinds in
+\* both orders unless AllThirds
+Pairs(mode) == {p \in KindsOf(mode) \X KindsOf(mode) :
+                  /\ p[1] # p[2]
+                  /\ (mode = "ntn" \/ AllThirds \/ p[2] = NextKind(mode, p[1]) \/ p[1] = NextKind(mode, p[2]))}
 Firsts3(mode) == IF mode = "ntc" THEN NtcFirst3 ELSE KindsOf(mode)
 Thirds(mode) == {p \in Firsts3(mode) \X KindsOf(mode) : AllThirds \/ p[2] = NextKind(mode, p[1])}
-Assignments(mode) ==
-    IF NOps = 2
+Assignments(n, mode) ==
+    IF n = 2
     THEN {<<B(k, FALSE), B(k, TRUE)>> : k \in KindsOf(mode)} \cup              \* same era
          {<<B(p[1], FALSE), B(p[2], FALSE)>> : p \in Pairs(mode)}              \* cross era
     ELSE {<<B(p[1], FALSE), B(p[1], TRUE), B(p[2], FALSE)>> : p \in Thirds(mode)}
 
-Row(mode, a, f) == [mode |-> mode, ops |-> a, order |-> f,
-                    deliver |-> [i \in Ops |-> i]]    \* op i delivers block i (OwnContent)
+Row(n, mode, a, f) == [mode |-> mode, ops |-> a, order |-> f,
+                       deliver |-> [i \in 1..n |-> i]]   \* op i delivers block i (OwnContent)
+Rows(n, mode) == SetToSeq({Row(n, mode, a, f) : a \in Assignments(n, mode), f \in Histories(n)})
 ASSUME ndJsonSerialize("serve22.ndjson",
-          SetToSeq({Row("ntc", a, f) : a \in Assignments("ntc"), f \in Histories}) \o
-          SetToSeq({Row("ntn", a, f) : a \in Assignments("ntn"), f \in Histories}))
+          IF NOps = 2 THEN Rows(2, "ntc") \o Rows(2, "ntn")
+          ELSE Rows(2, "ntc") \o Rows(2, "ntn") \o Rows(3, "ntc") \o Rows(3, "ntn"))
 =============================================================================
